@@ -18,6 +18,91 @@ def outcome_key(res) -> tuple:
     return ("abort", res.outcome[1])
 
 
+# ---------------------------------------------------------------------------
+# Input-file family: tasks that read input files handed over in every shape the scheduler
+# distinguishes (positionally, by keyword, nested in containers, inside a cached expression built
+# by a parent, beneath a shallow-validity parent, content-hashed, as a directory).
+# ---------------------------------------------------------------------------
+
+FILE_READERS = ["readf", "readkw", "readl", "readd", "readc", "readdir"]
+
+FILE_FORMS = [
+    # (name, source template with {p} = path literal, {q} = second path literal, {d} = dir literal)
+    ("direct", "readf(File({p}))"),
+    ("mk", "mk({p})"),
+    ("mkkw", "mkkw({p})"),
+    ("mkl", "mkl({p}, {q})"),
+    ("mkd", "mkd({p})"),
+    ("mkkwl", "mkkwl({p}, {q})"),
+    # (no check_valid="shallow" parents here: the statement is about default caching, and
+    # shallow validity is documented to skip the validity of intermediate values such as an
+    # input File consumed inside the subtree)
+    ("content", "mkc({p})"),
+    ("dir", "mkdir_({d})"),
+    ("deep", "deep({p})"),
+]
+
+
+def file_family_source(salts: dict, items: list) -> str:
+    from simkit.progs import HEADER
+
+    S = lambda r: f"{r}-{salts.get(r, 0)}"
+    L = [HEADER.format(ns="vp"),
+         "import os\nfrom redun.file import File, ContentFile, Dir\n\n",
+         f"@task()\ndef readf(f):\n    hit('readf')\n    return mix('{S('readf')}', f.read())\n\n",
+         f"@task()\ndef readkw(x, f=None, g=None):\n    hit('readkw')\n"
+         f"    return mix('{S('readkw')}', x, f.read() if f is not None else '', "
+         f"[h.read() for h in (g or [])])\n\n",
+         f"@task()\ndef readl(fs):\n    hit('readl')\n    return mix('{S('readl')}', [f.read() for f in fs])\n\n",
+         f"@task()\ndef readd(d):\n    hit('readd')\n"
+         f"    return mix('{S('readd')}', sorted((k, f.read()) for k, f in d.items()))\n\n",
+         f"@task()\ndef readc(f):\n    hit('readc')\n    return mix('{S('readc')}', f.read())\n\n",
+         f"@task()\ndef readdir(d):\n    hit('readdir')\n"
+         f"    return mix('{S('readdir')}', sorted((os.path.basename(f.path), f.read()) for f in d))\n\n",
+         "@task()\ndef mk(path):\n    return readf(File(path))\n\n",
+         "@task()\ndef mkkw(path):\n    return readkw(1, f=File(path))\n\n",
+         "@task()\ndef mkl(path, q):\n    return readl([File(path), File(q)])\n\n",
+         "@task()\ndef mkd(path):\n    return readd({'a': File(path)})\n\n",
+         "@task()\ndef mkkwl(path, q):\n    return readkw(2, g=[File(path), File(q)])\n\n",
+         "@task()\ndef mkc(path):\n    return readc(ContentFile(path))\n\n",
+         "@task()\ndef mkdir_(path):\n    return readdir(Dir(path))\n\n",
+         "@task()\ndef deep(path):\n    return [mk(path), mkkw(path)]\n\n",
+         f"@task()\ndef t0():\n    return [{', '.join(items)}]\n"]
+    return "".join(L)
+
+
+def tasks_under_catch(prog) -> set:
+    """Names of tasks reachable (transitively) from the guarded expression of any catch."""
+    def direct(node):
+        out = set()
+        for n in _walk(node):
+            if n[0] == "call":
+                out.add(n[1])
+            elif n[0] in ("map", "flatmap"):
+                out.add(n[1])
+        return out
+
+    by_idx = {t.idx: t for t in prog.tasks}
+    calls = {t.idx: direct(t.body) | set().union(*[direct(a[1]) for a in t.awaits] or [set()])
+             | set().union(*[direct(p[2]) for p in t.params if p[2] is not None] or [set()])
+             for t in prog.tasks}
+    seeds = set()
+    for t in prog.tasks:
+        nodes = [t.body] + [a[1] for a in t.awaits]
+        for root in nodes:
+            for n in _walk(root):
+                if n[0] == "catch":
+                    seeds |= direct(n[1])
+    reach, todo = set(), list(seeds)
+    while todo:
+        i = todo.pop()
+        if i in reach or i not in by_idx:
+            continue
+        reach.add(i)
+        todo.extend(calls.get(i, ()))
+    return {by_idx[i].name for i in reach}
+
+
 class C02(EngineACheck):
     PROPERTY = "C02"
     RULE = (
@@ -27,13 +112,138 @@ class C02(EngineACheck):
         "caching with its own seeded schedule, on a fresh or on the reused Scheduler object, and "
         "is compared with the same program version on an empty backend; a case is (program "
         "family, history); non-trivial = at least one step replayed something from the cache "
-        "after an edit"
+        "after an edit. One history in three instead uses a family of input-file readers (File "
+        "passed positionally, by keyword, nested in list / dict, inside the expression a parent "
+        "returns, ContentFile, Dir) with input-file rewrites "
+        "(other size; same size, later mtime; recreated; restored) from a simulated clock and "
+        "edits / reverts of the reader bodies between executions"
     )
     EXPECTED_PROBES = ["steps_checked", "reverts", "version_bumps", "scheduler_reused",
-                       "cache_hits_after_edit"]
+                       "cache_hits_after_edit", "file_family_histories", "input_rewrites"]
     QUICK_SECONDS = 45.0
 
+    def run_file_family(self, ch: Choices) -> RunOutcome:
+        import os
+        import shutil
+
+        from simkit import proglib
+        from simkit.progs import RawProgram
+
+        out = RunOutcome()
+        out.probe("file_family_histories")
+        root = os.path.join(schedsim.scratch_dir(), "c02files")
+        shutil.rmtree(root, ignore_errors=True)
+        os.makedirs(os.path.join(root, "ind"))
+        proglib.CLOCK[0] = 1_700_000_000.0
+        files = [os.path.join(root, "in0.txt"), os.path.join(root, "in1.txt"),
+                 os.path.join(root, "ind", "m0.txt"), os.path.join(root, "ind", "m1.txt")]
+        counter = [0]
+
+        def write(path, data):
+            with open(path, "w") as f:
+                f.write(data)
+            t = proglib.tick(1 + ch.choice(3, "dt"))
+            os.utime(path, (t, t))
+
+        for i, path in enumerate(files):
+            write(path, f"initial-{i}")
+        n = 1 + ch.choice(4, "nitems")
+        items = []
+        for _ in range(n):
+            name, tpl = FILE_FORMS[ch.choice(len(FILE_FORMS), "form")]
+            a = ch.choice(2, "file")
+            items.append(tpl.format(p=repr(files[a]), q=repr(files[1 - a]),
+                                    d=repr(os.path.join(root, "ind"))))
+        salts: dict = {}
+        prog = RawProgram(file_family_source(salts, items))
+        nsteps = 2 + ch.choice(4, "nsteps")
+        db = schedsim.fresh_db("hist.db")
+        history = []
+        last_w = last_res = None
+        try:
+            with enginea.ProgramSession(prog) as sess:
+                for step in range(nsteps):
+                    desc = []
+                    if step > 0:
+                        for _ in range(1 + ch.choice(2, "nedits")):
+                            kind = ch.choice(7, "file-edit-kind")
+                            path = files[ch.choice(len(files), "edit-file")]
+                            base = os.path.basename(path)
+                            if kind == 0:
+                                counter[0] += 1
+                                write(path, f"rewritten-{counter[0]}-" + "x" * counter[0])
+                                desc.append(f"rewrite-other-size:{base}")
+                                out.probe("input_rewrites")
+                            elif kind == 1:
+                                with open(path) as f:
+                                    old = f.read()
+                                new = "".join(chr((ord(c) - 32 + 1) % 90 + 32) for c in old)
+                                write(path, new)
+                                desc.append(f"rewrite-same-size-later-mtime:{base}")
+                                out.probe("input_rewrites")
+                            elif kind == 2:
+                                with open(path) as f:
+                                    old = f.read()
+                                os.unlink(path)
+                                write(path, old)
+                                desc.append(f"recreate-same-bytes-later-mtime:{base}")
+                            elif kind == 3:
+                                write(path, f"initial-{files.index(path)}")
+                                desc.append(f"restore-initial-content:{base}")
+                                out.probe("input_rewrites")
+                            elif kind in (4, 5):
+                                r = FILE_READERS[ch.choice(len(FILE_READERS), "edit-reader")]
+                                v = ch.choice(3, "salt")
+                                if v != salts.get(r, 0):
+                                    out.probe("reverts" if v == 0 else "body_edits")
+                                salts[r] = v
+                                desc.append(f"{r}:body={v}")
+                            else:
+                                desc.append("no-edit")
+                        prog = RawProgram(file_family_source(salts, items))
+                        sess.reload(prog)
+                    fresh = enginea.simulate(ch, prog, db_path=schedsim.fresh_db("fresh.db"),
+                                             session=sess)
+                    want = outcome_key(fresh)
+                    if want[0] == "abort":
+                        out.probe("aborted_runs")
+                        break
+                    res = enginea.simulate(ch, prog, db_path=db, session=sess)
+                    last_w, last_res = res.world, res
+                    self.fill(out, res.world, prog, extra_key=str(step))
+                    out.probe("steps_checked")
+                    cached = sum(1 for j in res.rec.order if res.rec.jobs[j].was_cached)
+                    if step > 0 and cached:
+                        out.probe("cache_hits_after_edit")
+                        out.nontrivial = True
+                    got = outcome_key(res)
+                    history.append({"step": step, "edits": desc, "outcome": repr(got)[:120],
+                                    "cached_jobs": cached})
+                    if got != want:
+                        sig = "input-files"
+                        if got[0] == "e" and want[0] == "v":
+                            sig += "/raises-" + got[1]
+                        elif any(h["outcome"] == repr(got)[:120] for h in history[:-1]):
+                            sig += "/stale-earlier-outcome"
+                        wrong = [items[i] for i in range(len(items))
+                                 if got[0] == "v" and want[0] == "v" and i < len(got[1][1])
+                                 and got[1][1][i] != want[1][1][i]] if got[0] == "v" else []
+                        out.violate("C02.equals_uncached", sig,
+                                    {"step": step, "history": history, "items": [
+                                        x.replace(root, "") for x in items],
+                                     "got": repr(got)[:300], "uncached": repr(want)[:300]})
+                        break
+        finally:
+            shutil.rmtree(root, ignore_errors=True)
+        if last_w is not None:
+            out.sample = {"t0": [x.replace(root, "") for x in items], "history": history,
+                          "schedule_events": [e[2:] for e in last_w.log[:40]]}
+            out.key = f"{out.key}/{len(history)}"
+        return out
+
     def run_one(self, ch: Choices) -> RunOutcome:
+        if ch.choice(3, "program-family") == 2:
+            return self.run_file_family(ch)
         out = RunOutcome()
         # Known finding: catch() keys its cache entry without the hashes of the tasks involved.
         avoid_catch = ch.choice(4, "avoid-catch") != 0
@@ -56,6 +266,7 @@ class C02(EngineACheck):
         db = schedsim.fresh_db("hist.db")
         history = []
         seen_variants: dict = {}
+        edited: set = set()
         shared_sched = None
         sess = enginea.ProgramSession(prog)
         last_w = last_res = None
@@ -77,6 +288,7 @@ class C02(EngineACheck):
                                     out.probe("reverts")
                                 seen_variants[t.name].add(v)
                                 histsim.apply_variant(t, v)
+                                edited.add(t.name)
                                 if t.version is not None:
                                     t.version = f"v{v}" + ("r" if t.raises else "")
                                     out.probe("version_bumps")
@@ -89,6 +301,7 @@ class C02(EngineACheck):
                                     t = raising[ch.choice(len(raising), "raise-task")]
                                 else:
                                     t = leaves[ch.choice(len(leaves), "raise-task")]
+                                edited.add(t.name)
                                 if t.raises:
                                     t.raises = None
                                 else:
@@ -138,13 +351,25 @@ class C02(EngineACheck):
                                         for n in _walk(t.body)) if not avoid_catch else False
                         sig = ("reused-scheduler/" if use_shared else "fresh-scheduler/") + \
                               ("with-catch" if has_catch else "no-catch")
-                        if got[0] == "e" and want[0] == "v":
+                        # Root cause of the known catch finding: catch() keys its cached decision
+                        # by task *names*; it needs a task beneath a catch's guarded expression
+                        # whose code was edited during the history (the stale decision may show
+                        # directly, or later through call nodes recorded while it was replayed).
+                        if has_catch and edited & tasks_under_catch(prog):
+                            sig += "/edited-task-under-catch"
+                        elif got[0] == "e" and want[0] == "v":
                             sig += "/raises-" + got[1]
                         elif any(h["outcome"] == repr(got)[:120] for h in history[:-1]):
                             sig += "/stale-earlier-outcome"
+                        def jobs_of(r):
+                            return [(r.rec.jobs[j].task.split(".")[-1],
+                                     "cached" if r.rec.jobs[j].was_cached else "ran")
+                                    for j in r.rec.order if r.rec.jobs[j].task][:14]
+
                         out.violate("C02.equals_uncached", sig,
                                     {"step": step, "history": history, "got": repr(got)[:300],
-                                     "uncached": repr(want)[:300]})
+                                     "uncached": repr(want)[:300], "jobs_cached_run": jobs_of(res),
+                                     "jobs_uncached_run": jobs_of(fresh)})
                         break
             finally:
                 if shared_sched is not None:
